@@ -75,6 +75,12 @@ type Interp struct {
 	initDone   bool
 	cur        *Worker
 	siteCount  map[string]int
+	globalCells map[*value]bool // cells reachable from package-level variables after init
+	globalMaps  map[*omap]bool
+	globalWrites []string
+	atomicDepth int
+	locksHeld   int
+	curFn       *ssa.Function
 	stubsUsed  map[string]int
 	lastBlock  []blockEvent
 }
@@ -238,6 +244,9 @@ func constValue0(c *ssa.Const) value {
 func (in *Interp) setCell(addr *value, v value) {
 	if in.frozenOn && in.frozen[addr] {
 		in.freezeHit(addr)
+	}
+	if in.globalCells != nil && in.path != nil && in.globalCells[addr] {
+		in.noteGlobalWrite(addr)
 	}
 	if in.logging {
 		in.undo = append(in.undo, undoRec{addr, *addr})
@@ -650,7 +659,9 @@ func callSSA(i *Interp, caller *frame, callpos token.Pos, fn *ssa.Function, args
 		i.depth--
 		i.abort("depth", "interpreted Go call depth exceeded %d in %s", i.cfg.MaxGoDepth, fi.name)
 	}
-	defer func() { i.depth-- }()
+	prevFn := i.curFn
+	i.curFn = fn
+	defer func() { i.depth--; i.curFn = prevFn }()
 	if i.fnCount != nil {
 		i.fnCount[fn]++
 	}
